@@ -30,6 +30,7 @@ NAMES = ["Alpha", "Beta", "Gamma", "Delta"]
 DIGIT_NAMES = ["Pet1", "Pet2", "Pet3", "Pet4"]  # file pet_1.py, but the emitted get_mapping() imports .pet1
 FIELDS = ["a", "b", "c"]
 DIRECT_EXTRA = ["opt", "map", "rows"]
+INLINE_POSITIONS = ["ifield", "ilist"]
 
 
 # ---------------------------------------------------------------------------------------------
@@ -63,8 +64,12 @@ BASE_MODES = {"abs", "opt", "req"}
 ANN_MODES = {"reqdef", "optdef", "reqenum", "reqdate"}
 
 
+def is_nulldisc(u: dict) -> bool:
+    return bool(u["nullable"]) and u["disc"]["mode"] != "none"
+
+
 def is_extra(u: dict) -> bool:
-    return u["disc"]["mode"] == "multi" or any(set(v["f"]) - BASE_MODES for v in u["vars"])
+    return u["disc"]["mode"] == "multi" or is_nulldisc(u) or any(set(v["f"]) - BASE_MODES for v in u["vars"])
 
 
 def is_ann(u: dict) -> bool:
@@ -211,7 +216,7 @@ def judge(chk: Check, traces: list[dict], label: str, via: str) -> None:
             o = next(o for o in t["obs"] if o["cid"] == f["cid"] and o["pos"] == f["pos"])
             # observed on the type object itself: does the union at this position still list its members in the document's order?
             loc["type_order"] = o.get("torder", "declared")
-            chk.fail(f["clause"], loc, {"u": u, "payload": p, "pos": f["pos"], "via": via, "flavour": t.get("_flavour", "plain"), "hist": t.get("_hist", "classes") if "fresh" in t else "", "typed": t.get("_typed", False)}, f"observed {json.dumps({k: o[k] for k in ('out', 'chosen', 'ckind', 'ekind', 'reenc')})[:400]}")
+            chk.fail(f["clause"], loc, {"u": u, "payload": p, "pos": f["pos"], "via": via, "flavour": t.get("_flavour", "plain"), "hist": t.get("_hist", "classes") if "fresh" in t else "", "shape": t.get("_shape", {})}, f"observed {json.dumps({k: o[k] for k in ('out', 'chosen', 'ckind', 'ekind', 'reenc')})[:400]}")
         if v["drift"] and not t.get("_nodrift"):
             ndrift += len(v["drift"])
             if chk.cov.get("drift_reported", 0) < 3:
@@ -283,7 +288,8 @@ def variant_schema(v: dict, i: int, names: list[str]) -> dict:
     raise ValueError(k)
 
 
-def union_doc(u: dict, how: str, names: list[str] = NAMES, kind_enum: bool = False, typed: bool = False, pair: bool = False) -> dict:
+def union_doc(u: dict, how: str, names: list[str] = NAMES, kind_enum: bool = False, typed: bool = False, pair: bool = False,
+              null_style: str = "flag", desc: bool = False, inline: bool = False) -> dict:
     """The one translation of an abstract union (UnionCodec.tla vocabulary) to an OpenAPI document: the union is the
     schema Pet (declared with `type: object` when typed), reached through every position of w_unionobs.POSITIONS."""
     disc = u["disc"]
@@ -319,11 +325,20 @@ def union_doc(u: dict, how: str, names: list[str] = NAMES, kind_enum: bool = Fal
     pet: dict[str, Any] = {how: [variant_schema(v, i, names) for i, v in enumerate(u["vars"])]}
     if prop:
         pet["discriminator"] = {"propertyName": prop, "mapping": {tag: f"#/components/schemas/{names[i - 1]}" for tag, i in disc["mapping"]}}
+    # the union schema's own modifiers: nullable in its two spellings, description, type: object
     if u["nullable"]:
-        pet["nullable"] = True
+        if null_style == "member":
+            pet[how] = pet[how] + [{"type": "null"}]
+        else:
+            pet["nullable"] = True
     if typed:
         pet["type"] = "object"
+    if desc:
+        pet["description"] = "One of the variants."
     schemas["Pet"] = pet
+    if inline:  # the same union declared inline at a property / as array items (only in documents observed there)
+        schemas["Hifield"] = {"type": "object", "properties": {"u": json.loads(json.dumps(pet))}, "required": ["u"]}
+        schemas["Hilist"] = {"type": "object", "properties": {"items": {"type": "array", "items": json.loads(json.dumps(pet))}}, "required": ["items"]}
     P = {"$ref": "#/components/schemas/Pet"}
     arr = {"type": "array", "items": P}
     schemas["PetList"] = dict(arr)
@@ -339,7 +354,10 @@ def union_doc(u: dict, how: str, names: list[str] = NAMES, kind_enum: bool = Fal
         # a SECOND union over the same variant schemas in reversed order (never discriminated), used the same ways
         pet2: dict[str, Any] = {how: [variant_schema(v, i, names) for i, v in reversed(list(enumerate(u["vars"])))]}
         if u["nullable"]:
-            pet2["nullable"] = True
+            if null_style == "member":
+                pet2[how] = pet2[how] + [{"type": "null"}]
+            else:
+                pet2["nullable"] = True
         schemas["PetB"] = pet2
         P2 = {"$ref": "#/components/schemas/PetB"}
         arr2 = {"type": "array", "items": P2}
@@ -354,7 +372,7 @@ def union_doc(u: dict, how: str, names: list[str] = NAMES, kind_enum: bool = Fal
         return {"get": {"operationId": oid, "tags": ["pets"], "summary": oid, "responses": {"200": {"description": "ok", "content": {"application/json": {"schema": {"$ref": f"#/components/schemas/{name}"}}}}}}}
 
     return {
-        "openapi": "3.0.3",
+        "openapi": "3.1.0" if (u["nullable"] and null_style == "member") else "3.0.3",
         "info": {"title": "unions", "version": "1.0.0"},
         "paths": {"/pet": op("getPet", "Pet"), "/pets": op("getPets", "PetList"), "/hfield": op("getHfield", "Hfield"), "/hnlist": op("getHnlist", "Hnlist")},
         "components": {"schemas": schemas},
@@ -381,6 +399,8 @@ def pick_generated(chk: Check, fams: dict[str, list[dict]], target: int) -> list
         if fam == "extra":
             multi = rank([d for d in scen if d["u"]["disc"]["mode"] == "multi"])
             nul = rank([d for d in scen if d["u"]["disc"]["mode"] == "none" and not is_ann(d["u"])])
+            nd = rank([d for d in scen if is_nulldisc(d["u"])])
+            out += [("plain", d) for d in nd[: max(24, target // 8)]]
             ann = rank([d for d in scen if is_ann(d["u"])])
             out += [("plain", d) for d in ann[: max(40, target // 5)]]
             out += [("multi-enum", d) for d in multi[: max(10, target // 20)]]
@@ -389,18 +409,25 @@ def pick_generated(chk: Check, fams: dict[str, list[dict]], target: int) -> list
     return out
 
 
-def gen_shape(chk: Check, flavour: str, u: dict) -> tuple[bool, list[str]]:
-    """Deterministic stratification of the generated family: whether the union schema also says `type: object`, and
-    through which positions it is observed (always response root / direct field / inline array item, plus 4 of the 7
-    wrapper positions, rotating by hash so that every position sees every flavour)."""
+def gen_shape(chk: Check, flavour: str, u: dict) -> dict:
+    """Deterministic stratification of the generated family.  The union SCHEMA's own modifiers - `type: object` or not,
+    `nullable: true` vs a `{type: null}` member (for nullable unions), with / without description - and the positions
+    through which it is observed: always response root / direct field / inline array item, plus 4 of the 9 other
+    positions, rotating by hash so that every position sees every flavour and modifier."""
     h = stable_hash(flavour + ukey(u), chk.seed)
-    typed = h % 4 == 0
+    shape = {"typed": h % 4 == 0, "null_style": "member" if (h // 4) % 2 else "flag", "desc": (h // 8) % 2 == 1}
     if flavour == "hist":
-        return typed, list(BASE_POSITIONS)
-    if flavour == "pair":  # (map positions need the hooks the emitted map wrappers register on the first converter module)
-        return typed, list(BASE_POSITIONS) + ["nlist", "rows", "opt", "olist"]
-    start = (h // 4) % len(EXTRA_POSITIONS)
-    return typed, list(BASE_POSITIONS) + [EXTRA_POSITIONS[(start + k) % len(EXTRA_POSITIONS)] for k in range(4)]
+        shape["positions"] = list(BASE_POSITIONS)
+    elif flavour == "pair":  # (map positions need the hooks the emitted map wrappers register on the first converter module)
+        shape["positions"] = list(BASE_POSITIONS) + ["nlist", "rows", "opt", "olist"]
+    else:
+        # (an inline copy of a discriminated union makes the generator's discriminator-enum collector re-type the variants'
+        # discriminator field - with a non-injective mapping that loses a value exactly like C14-F11 - so the flavour that
+        # relies on inline enums is observed without inline copies)
+        extras = [p for p in EXTRA_POSITIONS if flavour != "multi-enum" or p not in INLINE_POSITIONS]
+        start = (h // 16) % len(extras)
+        shape["positions"] = list(BASE_POSITIONS) + [extras[(start + k) % len(extras)] for k in range(4)]
+    return shape
 
 
 def replay_generated(chk: Check, picked: list[tuple[str, dict]], label: str, force: dict | None = None) -> None:
@@ -412,11 +439,12 @@ def replay_generated(chk: Check, picked: list[tuple[str, dict]], label: str, for
     for j, (flavour, d) in enumerate(picked):
         how = "oneOf" if j % 2 == 0 else "anyOf"
         u = d["u"]
-        typed, positions = gen_shape(chk, flavour, u)
+        shape = gen_shape(chk, flavour, u)
         if force:
-            typed, positions = bool(force.get("typed")), [force["pos"]]
-        shapes.append((typed, positions))
-        doc = union_doc(u, how, DIGIT_NAMES if flavour == "digit" else NAMES, kind_enum=(flavour == "multi-enum"), typed=typed, pair=(flavour == "pair"))
+            shape = dict(shape, **{k: v for k, v in force.items() if k in ("typed", "null_style", "desc")}, positions=[force["pos"]])
+        shapes.append(shape)
+        doc = union_doc(u, how, DIGIT_NAMES if flavour == "digit" else NAMES, kind_enum=(flavour == "multi-enum"), typed=shape["typed"], pair=(flavour == "pair"),
+                        null_style=shape["null_style"], desc=shape["desc"], inline=any(p in INLINE_POSITIONS for p in shape["positions"]))
         job = {"id": f"{label}#{j}", "root": str(root), "spec": doc, "pkg": f"u{j}.client", "force": True, "nopp": True}
         if flavour == "hist":
             # v1 and v2 of one API as two top-level client packages sharing one core package
@@ -427,7 +455,8 @@ def replay_generated(chk: Check, picked: list[tuple[str, dict]], label: str, for
     pres = {r["id"]: r for r in core.parallel_py(chk.scratch, "harness.w_gen", pre)} if pre else {}
     gres = core.parallel_py(chk.scratch, "harness.w_gen", jobs)
     ojobs = []
-    for (flavour, d), j, g, (typed, positions) in zip(picked, jobs, gres, shapes):
+    for (flavour, d), j, g, shape in zip(picked, jobs, gres, shapes):
+        positions = shape["positions"]
         ok = g["ok"] and (flavour != "hist" or pres[j["id"] + "pre"]["ok"])
         if not ok:
             chk.cov["not_generated"] = chk.cov.get("not_generated", 0) + 1
@@ -449,7 +478,7 @@ def replay_generated(chk: Check, picked: list[tuple[str, dict]], label: str, for
     chk.require(len(ojobs) > 0, "no union document could be generated")
     ores = {r["id"]: r for r in core.parallel_py(chk.scratch, "harness.w_obs", ojobs, env={"VERIF_OBS_EXTRA": "harness.w_unionobs"})}
     traces = []
-    for (flavour, d), j, (typed, positions) in zip(picked, jobs, shapes):
+    for (flavour, d), j, shape in zip(picked, jobs, shapes):
         o = ores.get(j["id"])
         if o is None:
             continue
@@ -464,7 +493,7 @@ def replay_generated(chk: Check, picked: list[tuple[str, dict]], label: str, for
         # union ImplChoose is evaluated on: the property-level judgement is unaffected, the model comparison is skipped
         # (likewise for the flavours whose known generator defects make the emitted code differ from the model)
         nodrift = any(v["k"] == "map" for v in d["u"]["vars"]) or flavour in ("digit", "multi-plain", "pair")
-        t = {"id": j["id"], "u": d["u"], "cases": [{"cid": i + 1, "p": c["p"]} for i, c in enumerate(d["cases"])], "obs": ob["res"], "_alias": ob["alias_repr"], "_nodrift": nodrift, "_flavour": flavour, "_typed": typed}
+        t = {"id": j["id"], "u": d["u"], "cases": [{"cid": i + 1, "p": c["p"]} for i, c in enumerate(d["cases"])], "obs": ob["res"], "_alias": ob["alias_repr"], "_nodrift": nodrift, "_flavour": flavour, "_shape": {k: shape[k] for k in ("typed", "null_style", "desc")}}
         if flavour in ("hist", "pair"):
             t["fresh"] = ob["fresh"]
             t["_hist"] = "perm" if flavour == "pair" else "classes"
@@ -495,7 +524,9 @@ def run(chk: Check) -> None:
         "generated: two clients sharing one core package) or the reversed undiscriminated union over the SAME variant classes (direct: same class "
         "objects; generated: a second union PetB in the same document, decoded first); the position through which the union value is reached is a dimension "
         "(generated: response root, direct field, inline array, NAMED array alias as field and as root, inline map, NAMED map alias, array of "
-        "arrays, non-required field / array, union declared with and without type: object - 3 fixed + 4 hash-rotated positions per union; "
+        "arrays, non-required field / array, union schema declared INLINE at a property / as array items - 3 fixed + 4 hash-rotated positions "
+        "per union) and so are the union schema's own modifiers (nullable: true vs a {type: null} member - also on DISCRIMINATED unions -, "
+        "description, type: object; "
         "direct: top/field/list + one of Optional / Dict[str,U] / List[List[U]]); non-trivial = distinct union with >=2 variants"
     )
     chk.assumptions += [
@@ -535,7 +566,8 @@ def run(chk: Check) -> None:
             # the annotated-property unions are replayed at ONE hash-chosen position each in the quick tier (positions are
             # exercised by every other family), everything else as usual
             groups.append(("extra-ann", [d for d in scen if is_ann(d["u"])], allpos if thorough else 0, False))
-            scen = [d for d in scen if not is_ann(d["u"])]
+            groups.append(("extra-nulldisc", [d for d in scen if is_nulldisc(d["u"])], allpos if thorough else 0, False))
+            scen = [d for d in scen if not is_ann(d["u"]) and not is_nulldisc(d["u"])]
         groups.append((fam, scen, allpos, False))
     hist = [d for d in fams["disc"] if d["u"]["disc"]["mode"] == "complete" and (thorough or len(d["u"]["vars"]) == 2)]
     groups.append(("history", hist, 2, "classes"))
@@ -555,7 +587,7 @@ def replay(chk: Check, path: str) -> None:
     u, p = sc["u"], sc["payload"]
     d = {"u": u, "cases": [{"p": p}]}
     if sc.get("via") == "generated":
-        replay_generated(chk, [(sc.get("flavour", "plain"), d)], "replay", force={"typed": sc.get("typed", False), "pos": sc.get("pos", "top")})
+        replay_generated(chk, [(sc.get("flavour", "plain"), d)], "replay", force=dict(sc.get("shape") or {"typed": sc.get("typed", False)}, pos=sc.get("pos", "top")))
     else:
         jobs = [{"id": "replay", "vars": u["vars"], "nullable": u["nullable"], "disc": u["disc"], "cases": [{"cid": 1, "payload": p}], "positions": [sc.get("pos", "top")]}]
         if sc.get("hist"):
